@@ -11,16 +11,16 @@ follows redirects, and net/http repeats a POST answered 301/302/303 as a GET **w
 The statements here are about the wire (`Nsq.Model.RelayRedirect`): `Delivered … a body` = some request of
 the chain that starts at address `a` carried the message bytes, with the publisher's method, and was
 answered with an accepted status (2xx for POST, 200 for GET). The client is a parameter: a `Check` =
-what its `CheckRedirect` decides (`checkNever` = fix F45, `checkSameMethod` = fix F45b, `checkDefault` =
-no `CheckRedirect`, the tree before F45).
+what its `CheckRedirect` decides (`checkSameMethod` = fix F45b = /repo 833e42b, the committed and only accepted client;
+`checkNever` = fix F45 alone; `checkDefault` = no `CheckRedirect`, the tree before F45).
 
 What the client guarantees (`Nsq.Proofs.RelayRedirect`): `MethodPreserving check` — a follow-up request is sent
 only if net/http kept the method of the first request; `Limited` — at most ten requests; `NoError` — the caller
 always gets the last answer. All three are proved for `checkNever` and `checkSameMethod`
 (`sameMethod_follows_exactly`: it follows EXACTLY the method-preserving redirects below the limit).
 
-* `http_fin_only_after_body_accepted` — **POST publisher, any method-preserving client** (in particular both
-  accepted shapes of the tree), every world, every mode: full statement. A POST answered 307/308 is re-sent with the
+* `http_fin_only_after_body_accepted` — **POST publisher, any method-preserving client** (in particular the
+  client of the tree, and `checkNever`), every world, every mode: full statement. A POST answered 307/308 is re-sent with the
   body (every request of the chain carries it), a POST answered 301/302/303 is handed back (`method_changing_redirect_requeues`).
 * `http_fin_only_after_body_accepted_never` — client of fix F45, POST **and** GET: full statement (no redirect is followed).
 * GET publisher with a client that follows (F45b): the message travels in the query string of the URL, the follow-up GET
@@ -37,7 +37,7 @@ always gets the last answer. All three are proved for `checkNever` and `checkSam
   (tree before F45): refuted by the audit's witness "302 → elsewhere → 200"; holds under `NoLossyRedirect`.
 * `redirect_answer_requeues` — client of F45: a 3xx answer (with or without `Location`) is never a success.
 Which client a tree has is *translated* from `noRedirect` (`Nsq.Tie.ToolsRelayRedirect.treeCheck`, `n2hClient_shape`:
-exactly `checkNever` or `checkSameMethod`) and probed on the real binary on every run
+exactly `checkSameMethod`) and probed on the real binary on every run
 (`harness/e8/n2h_redirect_test.go`); `http_fin_only_after_body_accepted_this_tree` is the statement about the checked tree.
 -/
 namespace Nsq.Props.C20Redirect
@@ -171,33 +171,29 @@ theorem http_fin_chain_accepted (check : Check) (hmp : MethodPreserving check) (
 /-- the `Check` of THIS tree (translated from its `noRedirect`) is method-preserving, limited, and never an error -/
 theorem tree_check_guarantees : MethodPreserving Nsq.Tie.ToolsRelayRedirect.treeCheck ∧
     Limited Nsq.Tie.ToolsRelayRedirect.treeCheck ∧ NoError Nsq.Tie.ToolsRelayRedirect.treeCheck := by
-  rcases Nsq.Tie.ToolsRelayRedirect.n2hClient_shape with h | h <;> rw [h]
-  · exact ⟨methodPreserving_never, limited_never, noError_never⟩
-  · exact ⟨methodPreserving_sameMethod, limited_sameMethod, noError_sameMethod⟩
+  rw [Nsq.Tie.ToolsRelayRedirect.n2hClient_shape]
+  exact ⟨methodPreserving_sameMethod, limited_sameMethod, noError_sameMethod⟩
 
-/-- the two accepted shapes differ (so `hget` below is vacuous on a tree whose client is `checkNever`) -/
+/-- the client of F45 alone and the accepted one (F45b) differ -/
 theorem never_ne_sameMethod : checkNever ≠ checkSameMethod := by
   intro h
   have := congrFun (congrFun (congrFun h true) true) 1
   simp [checkNever, checkSameMethod] at this
 
 /-- **THIS tree** (audit B12): the client is the `Check` translated from the tree's `noRedirect`, which the tie decides
-to be `checkNever` (F45, committed) or `checkSameMethod` (F45b). POST publisher: no hypothesis. GET publisher: when the
-client is the following one, `KeepsQuery` (`hget` is vacuous for `checkNever`: `never_ne_sameMethod`). A tree that reverts
-F45, or whose `noRedirect` decides anything else, fails `n2hClient_shape` and this theorem with it. -/
+to be `checkSameMethod` (F45b = /repo 833e42b, committed; nothing else is accepted). POST publisher: no hypothesis.
+GET publisher: `KeepsQuery` (every `Location` answered to a GET repeats its query) — forced:
+`http_fin_only_after_body_accepted_get_false`. A tree that reverts F45b or F45, or whose `noRedirect` decides anything
+else, fails `n2hClient_shape` and this theorem with it. -/
 theorem http_fin_only_after_body_accepted_this_tree (c : Cfg) (counter : Nat) (m : Msg) (so : Bool) (pick : Nat)
     (w : World)
-    (hget : c.post = false → Nsq.Tie.ToolsRelayRedirect.treeCheck = checkSameMethod → KeepsQuery w)
+    (hget : c.post = false → KeepsQuery w)
     (hfin : Out.fin m.id ∈ (stepVia Nsq.Tie.ToolsRelayRedirect.treeCheck c counter m so pick w).2) :
     FinJustified Nsq.Tie.ToolsRelayRedirect.treeCheck c m so w
       (stepVia Nsq.Tie.ToolsRelayRedirect.treeCheck c counter m so pick w).2 := by
   cases hp : c.post with
   | true => exact http_fin_only_after_body_accepted _ tree_check_guarantees.1 c hp counter m so pick w hfin
-  | false =>
-    rcases Nsq.Tie.ToolsRelayRedirect.n2hClient_shape with h | h
-    · rw [h] at hfin ⊢
-      exact http_fin_only_after_body_accepted_never c counter m so pick w hfin
-    · exact http_fin_only_after_body_accepted_get_partial _ c hp counter m so pick w (hget hp h) hfin
+  | false => exact http_fin_only_after_body_accepted_get_partial _ c hp counter m so pick w (hget hp) hfin
 
 /-- … and whatever the `Location`s say (GET publisher included) -/
 theorem http_fin_chain_accepted_this_tree (c : Cfg) (counter : Nat) (m : Msg) (so : Bool) (pick : Nat) (w : World)
@@ -209,14 +205,14 @@ theorem http_fin_chain_accepted_this_tree (c : Cfg) (counter : Nat) (m : Msg) (s
      (c.mode ≠ .all → ∃ a, Out.request a m.body true ∈ (stepVia Nsq.Tie.ToolsRelayRedirect.treeCheck c counter m so pick w).2)) :=
   http_fin_chain_accepted _ tree_check_guarantees.1 c counter m so pick w hfin
 
-/-- non-vacuity: this tree's client on the audit's world (POST → 302): one request, requeue — on both accepted shapes -/
+/-- non-vacuity: this tree's client on the audit's world (POST → 302): one request, requeue -/
 example : (stepVia Nsq.Tie.ToolsRelayRedirect.treeCheck ⟨.roundRobin, 1, true, false⟩ 0 ⟨7, [112]⟩ false 0 wMoved).2 =
     [Out.request 0 [112] false, Out.req 7] := by
-  rcases Nsq.Tie.ToolsRelayRedirect.n2hClient_shape with h | h <;> rw [h] <;> decide
+  rw [Nsq.Tie.ToolsRelayRedirect.n2hClient_shape]; decide
 
 /-! ### the ten-request limit -/
 
-/-- a `Limited` client (both accepted shapes, and net/http's default) makes at most ten requests per `Publish`;
+/-- a `Limited` client (the client of the tree, the one of F45, and net/http's default) makes at most ten requests per `Publish`;
 the `fuel` of the model is never what ends a chain -/
 theorem at_most_ten_requests (check : Check) (hl : Limited check) (post : Bool) (w : World) (a : Nat) (body : Bytes) :
     (wireOf check post w a body).length ≤ 10 ∧
@@ -224,7 +220,7 @@ theorem at_most_ten_requests (check : Check) (hl : Limited check) (post : Bool) 
   ⟨doReq_length check hl w post redirectFuel 0 a post (some body) (by omega),
    fun fuel hf => doReq_fuel_irrelevant check hl w post fuel 0 a post (some body) (by omega) (by omega)⟩
 
-/-- a client that is `Limited` and `NoError` (both accepted shapes) hands the publisher the answer to the last request it
+/-- a client that is `Limited` and `NoError` (the client of the tree, and the one of F45) hands the publisher the answer to the last request it
 made — after ten requests the tenth answer, whatever it is -/
 theorem seen_is_last_answer (check : Check) (hl : Limited check) (he : NoError check) (post : Bool) (w : World) (a : Nat)
     (body : Bytes) :
@@ -374,7 +370,7 @@ example : ¬ NoLossyRedirect true wMoved := by
 /-- the default client in a redirect loop: ten requests, then an error (requeue) -/
 example : (doReq checkDefault (fun _ _ _ => .status 302 (some ⟨0, false⟩)) true redirectFuel 0 0 true (some [112])).1.length = 10
     ∧ (doReq checkDefault (fun _ _ _ => .status 302 (some ⟨0, false⟩)) true redirectFuel 0 0 true (some [112])).2 = none := by decide
-/-- `at_most_ten_requests` / `seen_is_last_answer` apply to both accepted shapes and to this tree's client -/
+/-- `at_most_ten_requests` / `seen_is_last_answer` apply to the clients of F45 and F45b, hence to this tree's client -/
 example : Limited checkSameMethod ∧ NoError checkSameMethod ∧ Limited checkNever ∧ NoError checkNever :=
   ⟨limited_sameMethod, noError_sameMethod, limited_never, noError_never⟩
 
